@@ -49,8 +49,14 @@ def run(rep):
         a, b, c = strs[i], strs[i + 1], strs[i + 2]
         hist_reqs.append('module-history %s %s %s %s %s %s %s' % (a, b, a, a, a, c, a))
     ha = core.py_h(hist_reqs)
+    # ... and B C A: the module serialised AFTER unrelated ones must give the files it gives as the first action of a process
+    hist2 = []
+    for i in range(0, len(strs) - 2, 3):
+        a, b, c = strs[i], strs[i + 1], strs[i + 2]
+        hist2.append('module-history %s %s %s' % (b, c, a))
+    hb = core.py_h(hist2)
     n_hist = 0
-    for r, ans in zip(hist_reqs, ha):
+    for r, ans, r2, ans2 in zip(hist_reqs, ha, hist2, hb):
         x = sx.parse(ans)[0]
         n_hist += 1
         first = x[0]
@@ -59,6 +65,21 @@ def run(rep):
                 findings.append({'key': 'history', 'request': r[:3000], 'digests': [sx.dump(t) for t in x],
                                  'what': 'serialising the same module again in the same process gives different files'})
                 break
+        y = sx.parse(ans2)[0]
+        if y[2] != first:
+            findings.append({'key': 'history', 'request': r2[:3000], 'digests': [sx.dump(first), sx.dump(y[2])],
+                             'what': 'a module serialised after two unrelated modules gives different files than when it is serialised first'})
+    # (c) the same across processes: a module serialised as the first action of a fresh process vs after another module
+    n_fresh = 0
+    for i in range(0, min(len(strs) - 1, 8 if quick else 60), 2):
+        a, b = strs[i], strs[i + 1]
+        ra = core.py_h([f'module {a} (memo)', f'module-pretty {a} (memo)'])
+        rb = core.py_h([f'module {b} (memo)', f'module {a} (memo)', f'module-pretty {a} (memo)'])
+        n_fresh += 1
+        if ra != rb[1:]:
+            findings.append({'key': 'history', 'request': f'module {b[:1500]} ; module {a[:1500]}', 'alone': [x[:300] for x in ra], 'after': [x[:300] for x in rb[1:]],
+                             'what': 'a module serialised after another module (same process) gives different files than when it is serialised first in a fresh process'})
+    rep.coverage['fresh_process_pairs'] = n_fresh
     rep.coverage.update({
         'evaluations': len(reqs) * len(seeds) + len(hist_reqs) * 7, 'distinct_nontrivial': len(set(reqs)) + len(set(hist_reqs)),
         'rule': 'generated proof modules serialised (binary and pretty, optimise on and off, plus the memoisation set) in fresh '
